@@ -203,4 +203,7 @@ def cached_node_property(name):''')]),
          old="            selector = tuple(\n                locations.get(ix, slice(None)) for ix in self.inputs[c]\n            )\n            # re-insert the sliced array\n            temp_arrays[c] = temp_arrays[c][selector]",
          new="            term = self.inputs[c]\n            selector = [slice(None)] * len(term)\n            for ix, loc in locations.items():\n                if ix in term:\n                    selector[term.index(ix)] = loc\n            temp_arrays[c] = temp_arrays[c][tuple(selector)]",
          expect=("C02-SLICEARR", "selector")),
+    dict(name="seed C02_10: chunks rescaled with the sign of the exponent difference inverted", kind="break", file=CORE,
+         old="                k: mi * 10 ** (ei - emax) for k, (mi, ei) in chunks.items()", new="                k: mi * 10 ** (emax - ei) for k, (mi, ei) in chunks.items()",
+         expect=("C02-SLICESUM", "gather_slices")),
 ]
